@@ -15,14 +15,27 @@ type GoPool struct {
 	idle time.Duration
 }
 
+//go:norace
 func NewGoPool(maxGoroutinesAmount int, maxGoroutineIdleDuration time.Duration) *GoPool {
 	return &GoPool{max: maxGoroutinesAmount, idle: maxGoroutineIdleDuration}
 }
-func (gp *GoPool) MaxGoroutinesAmount() int        { return gp.max }
+
+//go:norace
+func (gp *GoPool) MaxGoroutinesAmount() int { return gp.max }
+
+//go:norace
 func (gp *GoPool) MaxGoroutineIdle() time.Duration { return gp.idle }
-func (gp *GoPool) Stop()                           {}
-func (gp *GoPool) Go(fn func()) error              { vsync.Go(fn); return nil }
-func (gp *GoPool) TryGo(fn func())                 { vsync.Go(fn) }
+
+//go:norace
+func (gp *GoPool) Stop() {}
+
+//go:norace
+func (gp *GoPool) Go(fn func()) error { vsync.Go(fn); return nil }
+
+//go:norace
+func (gp *GoPool) TryGo(fn func()) { vsync.Go(fn) }
+
+//go:norace
 func (gp *GoPool) MustGo(fn func(), ctx ...context.Context) error {
 	vsync.Go(fn)
 	return nil
